@@ -365,6 +365,8 @@ func baseAssumptions(eng *Engine) []string {
 		"shadow functions are defined only at the arguments where the real body was evaluated (state-independent functions, checked syntactically)",
 		"READS obligations are decided on the SSA of the function body (a load of the field exists), not by SMT",
 		"existence in the model of third-party results: decoders and encoders return arbitrary well-typed values and are assumed total",
+		"map sizes and key domains agree (a key implies len >= 1, two distinct keys imply len >= 2, len >= 1 / len >= 2 yield one / two distinct keys): runtime facts the size counter of the model satisfies on every path, assumed where len(map) is read",
+		"ghost function idowner(list, id) is uninterpreted: a precondition 'every entry p satisfies idowner(list, p.Id) == p' has a model exactly when identifiers identify the entries",
 	}
 	for _, t := range eng.specs.typeinvTexts() {
 		a = append(a, "input messages satisfy type invariant: "+t)
